@@ -22,3 +22,18 @@ Example C03_nonvacuous :
   detected (inst (bs " ") [bs "1'"; bs "OR"; bs "1=1--"]) = true /\
   detected (bs "hello world") = false.
 Proof. vm_compute. intuition. Qed.
+
+(* Lifting of the core to every ASCII case assignment: no member of the core contains one
+   of the case-sensitive neighbourhoods excluded by C10 (a vm_compute sweep over all
+   19 215 x 9 instances: GrammarLift.all_cases_liftable), so C10_partial2 applies to each. *)
+From LI Require Import Spec.CiSpec Proofs.GrammarLift.
+
+Theorem C03_core_any_case :
+  forall segs sep s', In segs all_cases -> In sep separators -> cv (inst sep segs) s' ->
+  exists fp, is_sqli s' = Ok (true, fp).
+Proof. exact core_case_lift. Qed.
+Print Assumptions C03_core_any_case.
+
+Example C03_any_case_nonvacuous :
+  cv (inst (bs " ") [bs "1'"; bs "OR"; bs "1=1--"]) (bs "1' oR 1=1--").
+Proof. repeat constructor. Qed.
